@@ -202,7 +202,9 @@ class POutputDispatcher(PDispatcher):
                             self.process.pid, data)
                     )
 
-    def record_output(self):
+    def record_output(self, final=False):
+        # final is true when no more output can arrive (the child has been
+        # reaped): nothing is held back waiting for the rest of a token
         if self.capturelog is None:
             # shortcut trying to find capture data
             data = self.output_buffer
@@ -215,7 +217,7 @@ class POutputDispatcher(PDispatcher):
         else:
             token, tokenlen = self.begintoken_data
 
-        if len(self.output_buffer) <= tokenlen:
+        if len(self.output_buffer) <= tokenlen and not final:
             return # not enough data
 
         data = self.output_buffer
@@ -226,7 +228,7 @@ class POutputDispatcher(PDispatcher):
         except ValueError:
             after = None
             index = find_prefix_at_end(data, token)
-            if index:
+            if index and not final:
                 self.output_buffer = self.output_buffer + data[-index:]
                 data = data[:-index]
             self._log(data)
@@ -236,7 +238,7 @@ class POutputDispatcher(PDispatcher):
             self.output_buffer = after
 
         if after:
-            self.record_output()
+            self.record_output(final)
 
     def toggle_capturemode(self):
         self.capturemode = not self.capturemode
